@@ -207,6 +207,10 @@ feature! {
 
 pub use subscribe::Subscribe;
 
+#[cfg(all(tokio_rs_tracing_verif, feature = "std"))]
+#[doc(hidden)]
+pub use tracing_core::__verif;
+
 feature! {
     #![all(feature = "registry", feature = "std")]
     pub use registry::Registry;
